@@ -59,7 +59,7 @@ def run(ctx):
                traces_validated_against_impl=len(lines), evaluations=len(lines), distinct_nontrivial=len(keys),
                rule="R1: spec/ServerImpl.tla for 3 connections x 2 messages x <= 2 temporary accept errors anywhere in the accept sequence, every interleaving; R2: 2-3 connections x messages x every placement of "
                     "one (thorough: two) fault(s) among {handler panic, undecodable message, disconnect between messages, disconnect inside a message} x four patterns of temporary accept errors (before / between / after accepts), "
-                    "on a real Server.Serve with an echo handler (also under a state machine); a probe connection pushed after the trailing accept errors must be served. every scenario has >= 2 connections and >= 1 fault; distinct by scenario Since extended: the report channel as a one-slot lossy channel (undecodable inputs sequenced on receipt); a message nested deeper than the decoder accepts as a fault kind; a disconnect inside a message body; a TLS listener (tls.NewListener over in-memory pipes) with peers that stall in or fail the TLS handshake before / between / after healthy peers (ServerImpl with a handshake step per connection); fault kinds shortlen, avplen4, badw; a Server without a Handler of its own (DefaultServeMux).",
+                    "on a real Server.Serve with an echo handler (also under a state machine); a probe connection pushed after the trailing accept errors must be served. every scenario has >= 2 connections and >= 1 fault; distinct by scenario Since extended: the report channel as a one-slot lossy channel (undecodable inputs sequenced on receipt); a message nested deeper than the decoder accepts as a fault kind; a disconnect inside a message body; a TLS listener (tls.NewListener over in-memory pipes) with peers that stall in or fail the TLS handshake before / between / after healthy peers (ServerImpl with a handshake step per connection); fault kinds shortlen, avplen4, badw; a Server without a Handler of its own (DefaultServeMux); unread reports with a handler still running elsewhere.",
                samples=[dict(case=l["case"], conns=l["conns"], reports=l["reports"]) for l in lines[0:len(lines):max(1, len(lines) // 3)]][:3],
                exhaustive=True, rejected=len(bad), known_finding_hits={k: n for k, (n, _) in v.hits.items()})
     rc = v.finish()
